@@ -348,6 +348,10 @@ def r8_4(ctx):
                         shape.append("{?}")
             seen.add("".join(shape))
         want_forms = {"{expr}" + (" (%s)" % q if q else ""), "{expr} (escaped%s)" % q, "{expr} ({kind}%s)" % q}
+        if not q:
+            # without a quantifier the bare text is ambiguous when it ends like a modifier itself (`foo (regex)`): the writer must have the
+            # explicit ` (equal)` form for that case (F25); the reader resolves `equal` through the registry (R4.3 / R8.5)
+            want_forms.add("{expr} (equal)")
         ctx.check(seen == want_forms, "writer:%r" % q, w.where(),
                   "optional=%s multiline=%s renders as %s" % (opt, multi, sorted(want_forms)),
                   "optional=%s multiline=%s renders as %s, the reader expects %s" % (opt, multi, sorted(seen), sorted(want_forms)))
